@@ -66,7 +66,7 @@ def run_tlc(module, cfg, workdir=None, workers=1, timeout=900, env=None, extra=(
             with open(os.path.join(workdir, cfg), "w") as f:
                 f.write(cfg_text)
         e = dict(os.environ)
-        e["JAVA_TOOL_OPTIONS"] = "-Xss256m -Xmx6g"
+        e["JAVA_TOOL_OPTIONS"] = "-Xss256m -Xmx3g"
         if env:
             e.update(env)
         cmd = ["timeout", str(timeout), "java", "-XX:+UseParallelGC", "-cp", TLA_JAR + ":/opt/veriftools/tla/*",
